@@ -196,7 +196,11 @@ def run_case(case, ctx):
                 ctx.tag('engine_reused:warm_start=%s' % pc['warm_start'])
             else:
                 eng = m.FactoredInference(dom, iters=1)
-            model = eng.estimate(list(tuples), total=supplied, engine='MD')
+            if case['sub_seed'] % 4 == 1:
+                model = eng.infer(list(tuples), supplied, 'MD')     # the deprecated spelling of estimate()
+                ctx.tag('entry_point:infer')
+            else:
+                model = eng.estimate(list(tuples), total=supplied, engine='MD')
             judge('factored', model.total)
         if 'local' in case['targets']:
             if case['sub_seed'] % 3 == 0:
